@@ -25,9 +25,13 @@ type c05Case struct {
 	Ask    int   // time slot at which the results are requested
 	Offset int   // start position
 	NoFile bool  // the producer never creates the stdout file (unit finishes without output)
+	Early  int   // the final record (announcing the full size) is written before the last Early writes: the record is ahead of the stored output, as with the local copy of a remote unit
 }
 
 func (c c05Case) String() string {
+	if c.Early > 0 {
+		return fmt.Sprintf("chunks=%v final=%d slots=%v ask=%d offset=%d nofile=%v final-record-before-last-%d-writes", c.Chunks, c.Final, c.Slots, c.Ask, c.Offset, c.NoFile, c.Early)
+	}
 	return fmt.Sprintf("chunks=%v final=%d slots=%v ask=%d offset=%d nofile=%v", c.Chunks, c.Final, c.Slots, c.Ask, c.Offset, c.NoFile)
 }
 
@@ -95,6 +99,14 @@ func runC05Case(t *testing.T, c c05Case) CaseOut {
 			for _, ch := range chunks {
 				ch := ch
 				steps = append(steps, func() {
+					if c.Early > 0 {
+						// the output arrives without the record being touched (the mirror appends to the file)
+						if f, err := os.OpenFile(filepath.Join(u.UnitDir(), "stdout"), os.O_APPEND|os.O_WRONLY, 0o600); err == nil {
+							f.Write(ch)
+							f.Close()
+						}
+						return
+					}
 					if sw != nil {
 						sw.Write(ch)
 					}
@@ -106,10 +118,22 @@ func runC05Case(t *testing.T, c c05Case) CaseOut {
 			if sw != nil {
 				size = sw.Size()
 			}
+			if c.Early > 0 {
+				size = int64(len(full))
+			}
 			// the producer is another process: it rewrites the status file, the daemon's monitor picks it up
 			sfd := &workceptor.StatusFileData{}
 			sfd.UpdateBasicStatus(filepath.Join(u.UnitDir(), "status"), c.Final, "done", size)
 		})
+		finalIdx := len(steps) - 1
+		if c.Early > 0 && c.Early < len(steps)-1 {
+			finalIdx = len(steps) - 1 - c.Early
+			// move the final record in front of the last Early writes
+			fin := steps[len(steps)-1]
+			at := len(steps) - 1 - c.Early
+			rest := append([]func(){}, steps[at:len(steps)-1]...)
+			steps = append(append(steps[:at:at], fin), rest...)
+		}
 		if len(c.Slots) != len(steps) {
 			out.violate("harness:c05-slots", "slots %v do not match %d steps", c.Slots, len(steps))
 			return
@@ -157,10 +181,10 @@ func runC05Case(t *testing.T, c c05Case) CaseOut {
 			// producer steps of this slot first, then the request (a request in the same slot sees them)
 			for si < len(steps) && c.Slots[si] == slot {
 				steps[si]()
-				si++
-				if si == len(steps) {
-					finalAt = time.Since(start)
+				if si == finalIdx {
+					finalAt = time.Since(start) // the final record is written (with Early > 0 the output is still behind it)
 				}
+				si++
 			}
 			if slot == c.Ask && !asked {
 				ask()
@@ -272,6 +296,23 @@ func runC05(w *W) {
 			}
 		}
 	}
+	// the final record is ahead of the stored output (status mirrored before the output, as for remote units)
+	for _, final := range []int{2, 3, 4} {
+		for _, early := range []int{1, 2} {
+			// (the daemon notices a rewritten record within a second: the last writes come 1.5-2.5 s after the record)
+			for _, slots := range [][]int{{0, 1, 2, 14}, {0, 0, 2, 22}, {0, 1, 1, 16}, {1, 2, 4, 20}} {
+				if early == 2 {
+					slots = []int{slots[0], slots[1], slots[1] + 12, slots[3] + 8}
+				}
+				for _, ask := range []int{0, 2, 10, 13} {
+					for _, off := range []int{0, 5, 8, 12} {
+						c := c05Case{Chunks: []int{5, 7}, Final: final, Slots: slots, Ask: ask, Offset: off, Early: early}
+						w.Case(c.String(), func() CaseOut { return runC05Case(w.T, c) })
+					}
+				}
+			}
+		}
+	}
 	// outputs that cross the 64 KiB read buffer: fewer interleavings, boundary offsets
 	big := [][]int{{65536}, {65535, 2}, {70000, 70000}, {1, 65536, 1}}
 	for _, chunks := range big {
@@ -307,7 +348,7 @@ func init() {
 		ID:        "C05",
 		Level:     "model_checking",
 		Technique: "exhaustive enumeration of the timing of a scripted producer's steps (real STDoutWriter and status rewrites) against the real `work results` reader in a synctest bubble: every monotone placement of the steps and of the request on a 125 ms grid (half the reader's poll period), every start offset; remote units: two real daemons joined through a harness-owned TCP relay, the link cut (or the remote daemon killed and restarted) at every position of a time grid while `work results` is asked early or late on the submitting node",
-		Rule: "outputs {none (no file), empty file, one chunk, two chunks (thorough: three)} x final state {Succeeded, Failed, Canceled} x every monotone assignment of the producer's steps (create file, write i, final status) to slots 0..4 (thorough 0..5) x request slot 0..5 x start offset 0..size (quick: 0, size/2, size and a third of the others); outputs crossing the 64 KiB read buffer with boundary offsets; remote: unit {cat, chatty (4 lines, 0.3 s apart)} submitted by n1 to n2, fault {none, link cut for 0.7 s / 3.5 s, n2 killed and restarted after 0.8 s} at 0..3000 ms step 600 (thorough 300) after the acknowledgement x request at 0.1 s / 8 s x offset {0, 7}, with a second request from 0 afterwards; unit ticker (8 lines, 0.5 s apart) with n2 restarted at 600..5400 ms and the link cut for 35 s (longer than the stream's idle limit) so that the mirror must connect again with part of the output stored. " +
+		Rule: "outputs {none (no file), empty file, one chunk, two chunks (thorough: three)} x final state {Succeeded, Failed, Canceled} x every monotone assignment of the producer's steps (create file, write i, final status) to slots 0..4 (thorough 0..5) x request slot 0..5 x start offset 0..size (quick: 0, size/2, size and a third of the others); outputs crossing the 64 KiB read buffer with boundary offsets; the final record (announcing the full size) written before the last 1-2 writes, for every final state (the record is ahead of the stored output, as with the local copy of a remote unit); remote: unit {cat, chatty (4 lines, 0.3 s apart)} submitted by n1 to n2, fault {none, link cut for 0.7 s / 3.5 s, n2 killed and restarted after 0.8 s} at 0..3000 ms step 600 (thorough 300) after the acknowledgement x request at 0.1 s / 8 s x offset {0, 7}, with a second request from 0 afterwards; unit ticker (8 lines, 0.5 s apart) with n2 restarted at 600..5400 ms and the link cut for 35 s (longer than the stream's idle limit) so that the mirror must connect again with part of the output stored. " +
 			"Every case is a distinct (output, timing, offset); all non-trivial. Oracle: bytes received = output[offset:], the stream ends, not before the final state was recorded and within 10 virtual seconds after it.",
 		Assumptions: []string{"remote cases run in real time (one process per case): the grid positions are approximate, no oracle depends on an interval shorter than 60 s", "virtual time: the reader's 250/500 ms polls and the producer's steps interleave on a 125 ms grid; finer phase differences are not explored", "Canceled counts as finished (C13's stage order)"},
 		Run:         runC05,
